@@ -450,6 +450,29 @@ func runPinsOnce() error {
 			return fmt.Errorf("order witness failed: %s; observed %v", x.what, x.got)
 		}
 	}
+	// a bare block: response header rules and the access log with neither errors nor gzip around them.  A
+	// missing file ends as an error status that an outer layer turns into the response; the header rule and
+	// the log line must be there all the same ("around all content handlers" includes their failures).
+	var bare []int
+	for i, l := range lines {
+		if l == "header / X-A one" || strings.HasPrefix(l, "log / ") {
+			bare = append(bare, i)
+		}
+	}
+	bresps, blogs, err := runBlock(bare, "bare")
+	if err != nil {
+		return fmt.Errorf("HARNESS: bare witness block: %v", err)
+	}
+	for i, q := range battery {
+		if q.Method == "GET" && q.Auth == "" && (q.Target == "/missing" || q.Target == "/a.txt") && q.AE == "" {
+			if len(bresps[i].Header["X-A"]) == 0 {
+				return fmt.Errorf("order witness failed: a header rule applies to every outcome of the handlers inside it; GET %s answered %d without X-A (block with only header and log): %v", q.Target, bresps[i].Status, bresps[i].Header)
+			}
+		}
+	}
+	if !strings.Contains(blogs["access.log"], "GET /missing 404 ") {
+		return fmt.Errorf("order witness failed: the access log of a block without errors records the 404 of a missing file; log: %q", blogs["access.log"])
+	}
 	return nil
 }
 
